@@ -36,7 +36,7 @@ def keep_oracle(d, is_gt, p, ego):
     mean = lambda l: sum(l) / len(l)
     tests = [("max_x_position_list", lambda b: abs(x) < b), ("max_y_position_list", lambda b: abs(y) < b),
              ("max_distance_list", lambda b: dist < b), ("min_distance_list", lambda b: dist > b)]
-    if p.get("confidence_threshold_list") is not None:
+    if p.get("confidence_threshold_list") is not None and not is_gt:      # a criterion for estimates only
         b = 0.0 if relaxed else p["confidence_threshold_list"][idx]
         if not d.get("score", 0.9) > b:
             return False
